@@ -410,7 +410,311 @@ def lifecycle_random(rng, n):
         yield _lifecycle_case(rng, spec, c['nx'], c['nu'])
 
 
+# ----------------------------------------------------------------------------- named columns: later calls with a DataFrame
+
+_NAME_POOL = ('alpha', 'beta', 'gamma', 'pos', 'vel', 'acc', 'tau', 'q', 'w', 'z', 'x0', 'x1', 'x2', 'u0', 'u1', 'cart pos', 'Zeta', 'a_b')
+_INDEX_KINDS = ('default', 'reversed', 'offset', 'shuffled', 'strings', 'duplicate', 'floats', 'dates')
+
+
+def _index(kind, n, salt):
+    """row labels of a frame; pykoop reads rows by position, so the labels carry no meaning"""
+    import pandas
+    if kind == 'default':
+        return None
+    if kind == 'reversed':
+        return list(range(n - 1, -1, -1))
+    if kind == 'offset':
+        return list(range(5 + salt, 5 + salt + n))
+    if kind == 'shuffled':
+        return sorted(range(n), key=lambda i: (i * 7919 + salt * 31 + 17) % 104729)
+    if kind == 'strings':
+        return [f'r{(i * 37 + salt) % 101}_{i}' for i in range(n)]
+    if kind == 'duplicate':
+        return [salt % 3] * n
+    if kind == 'floats':
+        return [0.5 * i - 1.25 for i in range(n)]
+    if kind == 'dates':
+        return pandas.date_range('2001-01-01', periods=n, freq='D')[::-1]
+    raise ValueError(kind)
+
+
+def _frame(X, names, order, index_kind, salt=0):
+    """the columns of X under their names, listed in `order` (positions of the fit order), rows labelled by `index_kind`;
+    built column by column from the named data, so that X itself stays what the columns mean BY NAME"""
+    import pandas
+    df = pandas.DataFrame({names[j]: np.array(X[:, j], dtype=float) for j in order})
+    idx = _index(index_kind, X.shape[0], salt)
+    if idx is not None:
+        df.index = idx
+    assert list(df.columns) == [names[j] for j in order]
+    return df
+
+
+def _close(a, b, rtol):
+    a, b = np.asarray(a, dtype=float), np.asarray(b, dtype=float)
+    return a.shape == b.shape and np.allclose(a, b, rtol=rtol, atol=rtol, equal_nan=True)
+
+
+def _all_perms(items):
+    if len(items) <= 1:
+        return [list(items)]
+    out = []
+    for i in range(len(items)):
+        out += [[items[i]] + p for p in _all_perms(items[:i] + items[i + 1:])]
+    return out
+
+
+def _cycle_type(order):
+    """(is it its own inverse, longest cycle) of a column order"""
+    inv = all(order[order[j]] == j for j in range(len(order)))
+    seen, longest = set(), 1
+    for j in range(len(order)):
+        k, l = j, 0
+        while k not in seen:
+            seen.add(k)
+            k, l = order[k], l + 1
+        longest = max(longest, l)
+    return inv, longest
+
+
+def gen_calls(rng, ep, w, thorough=False):
+    """column orders (positions in the fit order; EVERY permutation when there are at most three data columns, otherwise
+    the fit order, the rotations, and random shuffles) x row-label kinds for the later calls"""
+    e = 1 if ep else 0
+    cols = list(range(e, e + w))
+    if w <= 3:
+        perms = _all_perms(cols)
+    else:
+        perms = [cols[:], cols[1:] + cols[:1], cols[-1:] + cols[:-1], cols[2:] + cols[:2]]
+        for _ in range(4):
+            p = cols[:]
+            rng.shuffle(p)
+            perms.append(p)
+    calls = []
+    for p in perms:
+        order = ([0] if ep else []) + p
+        calls.append({'order': order, 'index': 'default' if rng.random() < 0.6 else rng.choice(_INDEX_KINDS)})
+    # the fit order under every kind of row labels, and some orders that move the episode column as well
+    for kind in (_INDEX_KINDS if thorough else rng.sample(_INDEX_KINDS, 3)):
+        calls.append({'order': list(range(e + w)), 'index': kind})
+    if ep:
+        for _ in range(2):
+            order = list(range(e + w))
+            while order[0] == 0:
+                rng.shuffle(order)
+            calls.append({'order': order, 'index': 'default'})
+    return calls
+
+
+def _frame_check(case, rng):
+    """an estimator fitted on a DataFrame (string column names), later called with DataFrames holding the same named columns
+    in another order and / or under other row labels: (status, why, failing call).
+    Each call is either refused (ValueError, consistently for every input signal) or the columns are consumed BY NAME. The
+    expected values never pass through the name handling: a twin estimator is fitted on the plain array and lifts the plain
+    array whose column j holds the data NAMED as the j-th fit column. Then: lifted width = episode + n_states_out_ +
+    n_inputs_out_; the lifted-state block is the twin's (the lift of the columns named as states); it is bit-identical when
+    only the columns named as inputs are replaced; lift_input is the declared input block; for a pipeline with a regressor
+    predict / score are the twin's."""
+    import pykoop
+    fr = case['frame']
+    X = np.array(case['rows'], dtype=float)
+    ep = 1 if case['ep'] else 0
+    nx, nu = case['nx'], case['nu']
+    names = fr['names']
+    n_inputs, epf = pipes.arg_forms(case['spec'], nu, case['ep'])
+    Xs = [X]
+    for _ in range(2):
+        Z = X.copy()
+        Z[:, ep + nx:] = np.array([[rng.uniform(-3, 3) for _ in range(nu)] for _ in range(X.shape[0])])
+        Xs.append(Z)
+    fit_order = list(range(X.shape[1]))
+    reg = bool(fr.get('regressor'))
+    try:
+        est, ref = pipes.build(case['spec']), pipes.build(case['spec'])
+        dfit = _frame(X, names, fit_order, fr.get('fit_index', 'default'))
+        if reg:
+            est.set_params(regressor=pykoop.Edmd(alpha=1))
+            ref.set_params(regressor=pykoop.Edmd(alpha=1))
+            est.fit(dfit, n_inputs=n_inputs, episode_feature=epf)
+            ref.fit(X, n_inputs=n_inputs, episode_feature=epf)
+        elif case['spec']['k'] == 'pipe':
+            est.fit_transformers(dfit, n_inputs=n_inputs, episode_feature=epf)
+            ref.fit_transformers(X, n_inputs=n_inputs, episode_feature=epf)
+        else:
+            est.fit(dfit, n_inputs=n_inputs, episode_feature=epf)
+            ref.fit(X, n_inputs=n_inputs, episode_feature=epf)
+        want = [ref.transform(Z) for Z in Xs]
+        ns, ni = int(ref.n_states_out_), int(ref.n_inputs_out_)
+        got = np.asarray(est.transform(_frame(X, names, fit_order, 'default')))
+        if [int(est.n_states_out_), int(est.n_inputs_out_)] != [ns, ni]:
+            return 'rejected:fit-not-reproducible', None, None
+        rtol = 1e-11
+        if not same(got, want[0]):
+            # (a lifting that amplifies rounding: compare at 100 x its measured rounding noise, as the value comparison does)
+            noise = rounding_noise({**case, 'form': 'c'}, ref, want[0])
+            rtol = max(1e-11, 100 * noise)
+            if rtol > 1e-6 or not _close(got, want[0], rtol):
+                return 'rejected:fit-not-reproducible', None, None
+        pred = score = None
+        if reg:
+            pred = [np.asarray(ref.predict(Z)) for Z in Xs]
+            try:
+                score = [float(ref.score(Z)) for Z in Xs]
+            except Exception:
+                score = None
+            if not _close(est.predict(_frame(X, names, fit_order, 'default')), pred[0], 1e-7):
+                return 'rejected:fit-not-reproducible', None, None
+    except Exception:
+        return 'rejected:fit', None, None
+    if list(getattr(est, 'feature_names_in_', None) if getattr(est, 'feature_names_in_', None) is not None else []) != list(names):
+        return 'rejected:names-not-captured', None, None
+
+    def attempt(f, frames):
+        outs, refused = [], 0
+        for F in frames:
+            try:
+                outs.append(f(F))
+            except ValueError:
+                refused += 1
+        return outs, refused
+
+    n_ref = 0
+    for ci, call in enumerate(fr['calls']):
+        order, kind = call['order'], call['index']
+        as_fit = order == fit_order
+        what = (f"fitted on a DataFrame with columns {names} (n_inputs={nu}, episode_feature={bool(ep)}), called with columns "
+                f"{[names[j] for j in order]}" + ('' if kind == 'default' else f' and {kind} row labels'))
+        frames = [_frame(Z, names, order, kind, salt=ci) for Z in Xs]
+        try:
+            outs, refused = attempt(lambda F: np.asarray(est.transform(F)), frames)
+            if refused == len(frames):
+                n_ref += 1
+                if as_fit and kind == 'default':
+                    return 'call', 'transform refuses the DataFrame it was fitted on', call
+                continue
+            if refused:
+                return 'call', f'transform refuses the frame for one input signal but not for another ({what})', call
+            T = outs[0]
+            if T.ndim != 2 or T.shape[1] != ep + ns + ni:
+                return 'call', f'lifted width {T.shape[1:]} is not episode + n_states_out_ ({ns}) + n_inputs_out_ ({ni}) ({what})', call
+            for k in (1, 2):
+                a, b = T[:, :ep + ns], outs[k][:, :ep + ns]
+                if a.shape != b.shape or not np.array_equal(a, b, equal_nan=True):
+                    bad = sorted({int(c) for c in np.argwhere(~((a == b) | (np.isnan(a) & np.isnan(b))))[:, 1]}) if a.shape == b.shape else '?'
+                    return 'call', (f'lifted-state columns {bad} changed when only the columns named as inputs '
+                                    f'({names[ep + nx:]}) were replaced ({what})'), call
+            for k in range(3):
+                if not _close(outs[k][:, :ep + ns], want[k][:, :ep + ns], rtol):
+                    return 'call', f'the lifted-state block is not the lift of the columns named as states ({names[ep:ep + nx]}) ({what})', call
+                if not _close(outs[k][:, ep + ns:], want[k][:, ep + ns:], rtol):
+                    return 'call', f'the lifted-input block is not the lift of the columns under their fit names ({what})', call
+            outs, refused = attempt(lambda F: np.asarray(est.lift_input(F)), frames[:2])
+            if refused not in (0, 2):
+                return 'call', f'lift_input refuses the frame for one input signal but not for another ({what})', call
+            for k, li in enumerate(outs):
+                if not _close(li, np.hstack((want[k][:, :ep], want[k][:, ep + ns:])), rtol):
+                    return 'call', f'lift_input is not the declared lifted-input block of the columns under their fit names ({what})', call
+            if reg:
+                outs, refused = attempt(lambda F: np.asarray(est.predict(F)), frames)
+                if refused not in (0, len(frames)):
+                    return 'call', f'predict refuses the frame for one input signal but not for another ({what})', call
+                for k, p in enumerate(outs):
+                    if not _close(p, pred[k], 1e-7):
+                        return 'call', f'predict does not use the columns under their fit names ({what})', call
+                outs, refused = attempt(lambda F: float(est.score(F)), frames) if score is not None else ([], 0)
+                if refused not in (0, len(frames)):
+                    return 'call', f'score refuses the frame for one input signal but not for another ({what})', call
+                for k, s in enumerate(outs):
+                    if not (np.isclose(s, score[k], rtol=1e-6, atol=1e-6) or (np.isnan(s) and np.isnan(score[k]))):
+                        return 'call', f'score does not use the columns under their fit names ({what})', call
+        except _TimeUp:
+            raise
+        except Exception as ex:
+            if as_fit:
+                return 'call', f'{type(ex).__name__}: {ex} raised ({what})', call
+            n_ref += 1          # (not a ValueError, but nothing was computed from wrongly matched columns)
+    return ('ok:all reordered frames refused' if n_ref >= sum(1 for c in fr['calls'] if c['order'] != fit_order)
+            else 'ok:some reordered frames consumed by name'), None, None
+
+
+def _frame_case(rng, spec, nx, nu, thorough=False, regressor=False):
+    epf = rng.random() < 0.5
+    m = pipes.loss(spec) + 3
+    eps, order = pipes.gen_layout(rng, m, extra=3, ep=epf)
+    rows = [([l] if epf else []) + [round(rng.uniform(-2.0, 2.0), 3) for _ in range(nx + nu)] for (l, t) in order]
+    names = rng.sample(_NAME_POOL, nx + nu)
+    if rng.random() < 0.3:
+        names = [f'x{j}' for j in range(nx)] + [f'u{j}' for j in range(nu)]
+    names = ([rng.choice(['episode', 'ep', 'run'])] if epf else []) + names
+    return {'spec': spec, 'nx': nx, 'nu': nu, 'ep': epf, 'rows': rows, 'min_len': m, 'form': 'c', 'degenerate': False,
+            'frame': {'names': names, 'calls': gen_calls(rng, epf, nx + nu, thorough), 'regressor': regressor,
+                      'fit_index': 'default' if rng.random() < 0.7 else rng.choice(_INDEX_KINDS)}}
+
+
+def frame_sweep(rng):
+    """every kind of stage alone, in a pipeline and in the state branch of a split pipeline, two states and one input (all
+    six orders of the three data columns) and two states and two inputs; pipelines with a regressor (predict / score)"""
+    for kind in KINDS:
+        for wrap in ('alone', 'pipe', 'split', 'pipe+regressor'):
+            nx, nu = (2, 1) if wrap != 'pipe' or rng.random() < 0.5 else (2, 2)
+            w = (nx, 0) if wrap == 'split' else (nx, nu)
+            if kind == 'bilinear' and w[1] == 0:
+                continue
+            s = None
+            for _ in range(20):
+                s = pipes.gen_row_stage(rng, [kind], *w)
+                if kind != 'delay' or s['dx'] + s['du'] <= 3:
+                    break
+            spec = {'alone': s, 'pipe': {'k': 'pipe', 'ss': [s]}, 'pipe+regressor': {'k': 'pipe', 'ss': [s]},
+                    'split': {'k': 'split', 'a': [s], 'b': []}}[wrap]
+            yield _frame_case(rng, spec, nx, nu, thorough=(wrap == 'alone'), regressor=(wrap == 'pipe+regressor'))
+
+
+def frame_random(rng, n):
+    """random trees (all kinds) with at least one input and at least three data columns"""
+    for _ in range(n):
+        for _ in range(50):
+            c = st.gen_case(rng, KINDS, max_depth=2, cap=30, opaque=True)
+            if c['nu'] >= 1 and c['nx'] + c['nu'] >= 3:
+                break
+        else:
+            continue
+        yield _frame_case(rng, c['spec'], c['nx'], c['nu'])
+
+
+def frame_checks(ctx, n):
+    for gen, label in ((frame_sweep(ctx.rng), 'sweep'), (frame_random(ctx.rng, n), 'random')):
+        for c in gen:
+            try:
+                with _time_limit(30):
+                    status, why, call = _frame_check(c, ctx.rng)
+            except _TimeUp:
+                status, why, call = 'not evaluated (time limit)', None, None
+            except Exception as ex:
+                status, why, call = 'call', f'named-column check raised {type(ex).__name__}: {ex}', None
+            ctx.count(f'named columns {label}: {status}')
+            for cl in c['frame']['calls']:
+                inv, longest = _cycle_type(cl['order'])
+                if cl['order'] != sorted(cl['order']):
+                    ctx.count('named columns: call order is ' + ('a swap-like permutation (its own inverse)' if inv else
+                                                                  f'not its own inverse (cycle of length {min(longest, 4)}{"+" if longest > 4 else ""})'))
+                if cl['index'] != 'default':
+                    ctx.count('named columns: non-default row labels')
+            if why:
+                small = dict(c)
+                if call is not None:
+                    small['frame'] = {**c['frame'], 'calls': [call]}
+                tags = st.case_tags(c)
+                tags['named_columns'] = status
+                ctx.fail(why, small, tags)
+
+
 def oracle(case, rng, est=None):
+    if case.get('frame') is not None:
+        try:
+            return _frame_check(case, rng)[1]
+        except Exception as ex:
+            return f'named-column check raised {type(ex).__name__}: {ex}'
     if case.get('edits') is not None:
         try:
             return _lifecycle(case, rng)[1]
@@ -490,14 +794,22 @@ def run(ctx):
                 'column dependency map (model: dependency-set instance; implementation: single-column '
                 'perturbation); non-trivial = at least one stage, two rows; object lifecycle: fitted composites '
                 '(every kind at every nesting position + random trees) whose nested stage parameters are edited through '
-                'set_params / whose steps are replaced by name AFTER fit, then used without refit and after a refit')
+                'set_params / whose steps are replaced by name AFTER fit, then used without refit and after a refit; named '
+                'columns: estimators (every kind alone / in a pipeline / in a split pipeline / in a pipeline with a regressor + '
+                'random trees, n_inputs >= 1) fitted on a pandas DataFrame, then called with DataFrames holding the same named '
+                'columns in another order (every permutation of up to three data columns, rotations and shuffles of more, the '
+                'episode column moved) and / or under non-default row labels')
     ctx.explanation = ('theorems C02_* (state block locality by induction over the tree, every kind contributing '
                        'its row-level lemma rowFn_xloc); correspondence on values, partition and dependency map; '
                        'oracle: replace the input columns, state block must be bit-identical; lifecycle oracle: after '
                        'nested set_params on a fitted composite (no refit) transform is bit-identical to the output '
                        'recorded before the edit and equal to a never-edited twin, width = episode + n_states_out_ + '
                        'n_inputs_out_, state block input-independent, lift_state / lift_input = the declared blocks; a '
-                       'refit lifts like a new estimator with the edited parameters')
+                       'refit lifts like a new estimator with the edited parameters; named-column oracle: a later call with '
+                       'a reordered / relabelled DataFrame is refused (ValueError, for every input signal alike) or consumed BY '
+                       'NAME - width = episode + n_states_out_ + n_inputs_out_, the lifted-state block equals the lift (by a '
+                       'twin fitted and called on plain arrays) of the columns NAMED as states and is bit-identical when only '
+                       'the columns named as inputs are replaced, lift_input / predict / score agree with the twin')
     ctx.proof_obligations('Properties.C02', THEOREMS)
     drv = ctx.get_driver()
     n = ctx.n(160, 2000)
@@ -573,6 +885,7 @@ def run(ctx):
             small = st.shrink(fc, lambda x: oracle(x, ctx.rng))
             ctx.fail(oracle(small, ctx.rng) or why, small, {'kinds': sorted(pipes.kinds_in(c['spec']))})
     lifecycle_checks(ctx, ctx.n(60, 600))
+    frame_checks(ctx, ctx.n(40, 400))
 
     def search(ctx):
         for c in bad[:40]:
